@@ -893,6 +893,27 @@ def search_format(ck: Ck, name: str, n: int) -> None:
                       'how': f'harness.c20_util.roundtrip(FORMATS[{name!r}], spec)'})
 
 
+def independent_summary(sc) -> tuple[int, int, list[str]]:
+    """(duration_ms, last_speak_ms, sounds) of a scene, computed without Scene.duration / Scene.used_sounds / playback_caption."""
+    from fractions import Fraction
+    from srctools.choreo import SpeakEvent, CaptionType
+    evs = list(sc.events) + [e for a in sc.actors for c in a.channels for e in c.events]
+
+    def ms(ts: list[float]) -> int:
+        t = max([Fraction(x) for x in ts], default=Fraction(0))
+        q, r = divmod(t * 1000, 1)
+        return int(q) + (1 if (r > Fraction(1, 2) or (r == Fraction(1, 2) and int(q) % 2 == 1)) else 0)
+    times = [(e.start_time if e.end_time == -1.0 else e.end_time) for e in evs]
+    sp_times = [(e.start_time if e.end_time == -1.0 else e.end_time) for e in evs if isinstance(e, SpeakEvent)]
+    snd: set[str] = set()
+    for e in evs:
+        if isinstance(e, SpeakEvent):
+            snd.add(e.parameters[0])
+            if e.caption_type is CaptionType.Master or (e.caption_type is CaptionType.Slave and not e.use_combined_file):
+                snd.add(e.cc_token or e.parameters[0])
+    return ms(times), ms(sp_times), sorted(snd)
+
+
 def image_extra(ck: Ck, n: int) -> None:
     """scenes.image beyond the plain round trip: entry table sorted by CRC as stored, summaries consistent with the
     scenes, second generation identical whether or not the scenes were looked at, independence of the caller's order."""
@@ -952,8 +973,14 @@ def image_extra(ck: Ck, n: int) -> None:
                     elif d3 != U.image_write((version, ents3)):
                         ck.violation('scenes-image:order-dependent:dict', 'the file depends on whether entries are passed as a dict or as a list',
                                      {'format': 'scenes-image', 'spec': spec})
-            # (d) summaries consistent with the scene after the round trip
+            # (d) summaries consistent with the scene after the round trip: against Entry.from_scene and against an
+            # independent computation (own loops over the events; not Scene.duration / used_sounds)
             for e in img.values():
+                ind = independent_summary(e.data)
+                st = (e.duration_ms, e.last_speak_ms if version == 3 else e.duration_ms, list(e.sounds))
+                if st != (ind[0], ind[1] if version == 3 else ind[0], ind[2]):
+                    ck.violation('scenes-image:summary-inconsistent:independent', f'stored summary {st} differs from the summary computed '
+                                 f'independently from the stored scene {ind}', {'format': 'scenes-image', 'spec': spec, 'crc': e.checksum})
                 again = Entry.from_scene('x', e.data)
                 want = (e.duration_ms, e.last_speak_ms if version == 3 else e.duration_ms, list(e.sounds))
                 got = (again.duration_ms, again.last_speak_ms if version == 3 else again.duration_ms, list(again.sounds))
